@@ -7,25 +7,12 @@
      CText   the REAL text of SQLModel.to_sql(ops, sql_format_options=o) must be, character for character, Render.to_sql
      CMerge  the REAL graph generated with allow_extend_merges=False, put through merge_tree, must be the REAL graph generated
              with allow_extend_merges=True (generated names with their counters erased on both sides by the harness;
-             None = the generation raised) *)
+             None = the generation raised)
+     CSound  (run separately, informational) Model/CacheSound.v cache_sound_dec on the real graph: the guard of the CTE
+             elimination theorem established for this graph, for every engine *)
 From Coq Require Import List Bool Arith String Ascii.
 Import ListNotations.
-From DA Require Import Base.PyRT Base.Cases Model.NearSql Model.WithForm Model.SqlMerge Model.Render.
-
-(* boolean equalities written directly (the sumbool-based `eqb` of PyRT computes proof terms under vm_compute) *)
-Fixpoint leqb {A} (e : A -> A -> bool) (a b : list A) : bool :=
-  match a, b with [] , [] => true | x :: s, y :: t => e x y && leqb e s t | _, _ => false end.
-Definition oeqb {A} (e : A -> A -> bool) (a b : option A) : bool :=
-  match a, b with None, None => true | Some x, Some y => e x y | _, _ => false end.
-Definition peqb {A B} (e : A -> A -> bool) (f : B -> B -> bool) (a b : A * B) : bool := e (fst a) (fst b) && f (snd a) (snd b).
-Definition seqb := String.eqb.
-Definition terms_eqb : option terms -> option terms -> bool := oeqb (leqb (peqb seqb (oeqb seqb))).
-Definition deps_eqb : option depmap -> option depmap -> bool := oeqb (leqb (peqb seqb (leqb seqb))).
-Definition lseqb : list string -> list string -> bool := leqb seqb.
-Definition oseqb : option string -> option string -> bool := oeqb seqb.
-
-Definition ci_eqb (a b : cinfo) : bool :=
-  oeqb lseqb (ccols a) (ccols b) && Bool.eqb (cforce a) (cforce b) && oseqb (cpub a) (cpub b).
+From DA Require Import Base.PyRT Base.Cases Model.NearSql Model.WithForm Model.SqlMerge Model.Render Model.CacheSound.
 
 Fixpoint nearsql_eqb (a b : nearsql) : bool :=
   match a, b with
@@ -56,7 +43,8 @@ Definition cache_names (c : cache) : list (string * string) := map (fun kv => (f
 Inductive case :=
 | CWith (fl : flags) (q : nearsql) (use_cache : bool) (obs_prev : wseq) (obs_last : nearsql) (obs_cache : list (string * string))
 | CText (d : dialect) (fl : flags) (o : opts) (q : nearsql) (obs : string)
-| CMerge (fl : flags) (q_off : nearsql) (q_on : option nearsql).
+| CMerge (fl : flags) (q_off : nearsql) (q_on : option nearsql)
+| CSound (fl : flags) (q : nearsql).          (* does the decidable sufficient condition for cache_sound hold on this real graph? *)
 
 Definition case_ok (c : case) : bool :=
   match c with
@@ -71,6 +59,7 @@ Definition case_ok (c : case) : bool :=
       | None, None => true
       | _, _ => false
       end
+  | CSound fl q => cache_sound_dec fl q
   end.
 
 Definition check_cases (cs : list case) : list nat := failing_idx case_ok cs.
